@@ -679,8 +679,9 @@ def main(tier):
     #    constants at the root included (judged by C20's reference reader, no model involved)
     from . import c20
 
-    words = ["false", "true", "(false)", "(true)", "~false", "~true", "a", "~a", "false & a", "a | false", "false ^ true", "true & false", "(false) | (false)", "~(false)", "foo & ~bar | false"]
-    leaves = ["a", "b", "true", "false"]
+    words = ["false", "true", "(false)", "(true)", "~false", "~true", "a", "~a", "false & a", "a | false", "false ^ true", "true & false", "(false) | (false)", "~(false)", "foo & ~bar | false",
+             "knot & b", "cannot | a", "not & a", "and | or", "xor ^ not", "band & nor", "(knot ) & b", "whatnot ^ knot"]
+    leaves = ["a", "b", "true", "false", "knot", "not", "or"]
     for _ in range(150 if tier == "quick" else 1500):
         n = rng.randint(1, 4)
         w = rng.choice(leaves)
